@@ -55,7 +55,7 @@ def layout(spec):
 def check_spec(acc, spec, tier):
     fam = SC.family_of(spec)
     nv = len(spec["vars"])
-    for cfg in S.configs_for(spec, tier, full=fam in ("F3", "F4")):
+    for cfg in S.configs_for(spec, tier, full=fam in ("F3", "F4", "F7")):
         modes = [("enumerate", None)]
         if fam != "F1" or tier == "thorough":
             modes += [("min", nv - 1), ("max", 0)]
